@@ -2,6 +2,7 @@ package parser
 
 import (
 	"fmt"
+	"strings"
 	"ti/base"
 	"ti/context"
 	"ti/lexer"
@@ -44,8 +45,11 @@ func New(lexer lexer.Lexer, file string) Parser {
 
 func (p *Parser) Fatal(ctx context.Context, err error) {
 	if ctx.IsCheckRound() {
+		// messages quote source text; keep one diagnostic on one output line
+		message := strings.ReplaceAll(fmt.Sprint(err), "\n", "\\n")
+
 		p.Errors =
-			append(p.Errors, fmt.Errorf("%v:::%d:::%v", p.FileName, p.ErrorRow, err))
+			append(p.Errors, fmt.Errorf("%v:::%d:::%v", p.FileName, p.ErrorRow, message))
 	}
 }
 
